@@ -1011,6 +1011,9 @@ package collection
 //@   requires cache != nil && cache.timingWheel != nil
 //@   call return#*: assert !ok
 //@   call Del#0: assert arg_key == key && arg_recv == cache
+//@   ghost at entry: dl = false
+//@   ghost at after Del#0: dl = true
+//@   ensures_local implies(ok, dl)
 //@ func NewCache
 //@   property C16 C07
 //@   results c, err
